@@ -199,6 +199,13 @@ example : x509Issue KM.Gen.C03.shape KM.Gen.C03.maxCertificateLifetime
     = some (1790661645, 1790661705) := by decide
 example : FloatSecs truncSecs := truncSecs_floatSecs
 
+/-- the float contract is what the driver's `judge secs` tests point by point on the real
+conversion: a conversion that passes `floatSecsAt` everywhere satisfies `FloatSecs`, and the
+truncating instance run by the driver does -/
+theorem c03_float_contract :
+    (∀ fsec : Int → Int, (∀ d, floatSecsAt d (fsec d) = true) → FloatSecs fsec) ∧ FloatSecs truncSecs :=
+  ⟨fun _ h => floatSecs_of_at h, truncSecs_floatSecs⟩
+
 /-- **As found**: the pinned tree's block (no test for negative requests) lets `duration=-600000h`
 through and the unsigned conversion wraps: `ValidBefore = 18446744073340210366` (≈ 2^64). -/
 theorem c03_ssh_unfixed_counterexample :
